@@ -256,8 +256,13 @@ func execC12() {
 }
 
 // ---------------------------------------------------------------- regex facts (DESIGN 7.2)
-var rxPatterns = []string{"a", "^a.", "b$", "a|b", "[ab]+", "^$", "a.c", "x"}
-var rxStrings = []string{"", "a", "b", "ab", "ba", "abc", "c", "aa", "xb", "a b"}
+var rxPatterns = append([]string{"a", "^a.", "b$", "a|b", "[ab]+", "^$", "a.c", "x"}, slashPatterns...)
+var rxStrings = append([]string{"", "a", "b", "ab", "ba", "abc", "c", "aa", "xb", "a b"}, slashStrings...)
+
+// patterns with k = 0..3 backslashes directly before a slash, in the middle, at the start and at the end of the pattern,
+// and a backslash pair at the end (C14: printing a regex constant between slashes), with the strings that tell them apart
+var slashPatterns = []string{`a/b`, `a\/b`, `a\\/b`, `a\\\/b`, `^a\\/b$`, `/a`, `\/a`, `\\/a`, `a/`, `a\/`, `a\\/`, `a\\`, `^/$`, `a\\\\`}
+var slashStrings = []string{"a/b", "a\\/b", "a\\b", "a\\", "/a", "\\/a", "a/", "a\\/", "/", "\\", "a\\\\", "a\\\\/b"}
 
 func rxTable() {
 	wr := bufio.NewWriter(os.Stdout)
